@@ -115,6 +115,8 @@ impl zarrs::storage::storage_adapter::sync_to_async::SyncToAsyncSpawnBlocking fo
     }
 }
 
+/// `every`: flush + read back after every draw, every third draw, or (1_000_000) only after draw 0 -- then finalisation alone has to bring the
+/// buffered tail of every array into the store
 pub fn gen_case(seed: u64, case: u64, tier: &str) -> Cfg {
     let mut r = Sm::new(seed, "C15", case);
     let mut run = gen_cfg(&mut r, case);
@@ -122,7 +124,13 @@ pub fn gen_case(seed: u64, case: u64, tier: &str) -> Cfg {
     run.num_tune = match case % 5 { 0 => 0, 1 => chunk, 2 => chunk + 1, 3 => (2 * chunk).saturating_sub(1).max(1), _ => 5 + r.below(30) }.min(60);
     run.num_draws = match case % 7 { 0 => 0, 1 => 1, 2 => chunk, 3 => chunk + 1, _ => 3 + r.below(25) }.min(60);
     run.chain = r.below(run.num_chains as u64);
-    Cfg { run, chunk, backend: if tier == "thorough" { if case % 12 == 5 { 3 } else { (case % 3) as u8 } } else { match case % 6 { 0 => 1, 1 => 2, 3 => 3, _ => 0 } }, every: if case % 4 == 3 { 3 } else { 1 } }
+    // corpus: a run that ends while still in warmup (num_draws = 0, or aborted there) with a partial chunk in the buffers and no flush after
+    // the first draw: finalisation alone has to write the tail, into the WARMUP arrays (seeded change C15-sync-finalize-warmup-stats)
+    if case == 2 || case == 3 || case == 4 {
+        run.num_tune = 10; run.num_draws = 0;
+        return Cfg { run, chunk: 7, backend: [0u8, 1, 2][(case - 2) as usize], every: 1_000_000 };
+    }
+    Cfg { run, chunk, backend: if tier == "thorough" { if case % 12 == 5 { 3 } else { (case % 3) as u8 } } else { match case % 6 { 0 => 1, 1 => 2, 3 => 3, _ => 0 } }, every: if case % 8 == 5 { 1_000_000 } else if case % 4 == 3 { 3 } else { 1 } }
 }
 
 /// op sequences for the Lean model: one record per (variable, chunk size) with values abstracted to their position
